@@ -17,7 +17,7 @@ Alpha == Sends(TRUE) \o Sends(FALSE) \o <<
   Recv_(2, 255, 3, 22, P1), Recv_(2, 255, 3, 32, PEmpty), Recv_(1, 255, 3, 22, P1), Recv_(2, 255, 3, 0, P57),
   Recv_(2, 255, 0, 17, P20),                                           \* the sleeping node presents itself again
   RecvF(2, 255, 3, 22, P1, "rel", 1), RecvF(2, 255, 3, 32, PEmpty, "rel", 1),   \* a write fault while releasing
-  Junk_("str"), Junk_("none"), Junk_("int"), Junk_("object"), Junk_("dictmissing"), Junk_("class"),
+  Junk_("str"), Junk_("none"), Junk_("int"), Junk_("object"), Junk_("dictmissing"),
   Cycle_
 >>
 Inits == << St(Reg, "1.4", "1.4", TRUE), St(Reg, "1.5", "1.5", TRUE), St(Reg, "2.0", "2.0", TRUE),
